@@ -1,4 +1,4 @@
-\* C17 design spec, thorough tier: 2 keys x 3 threads, every operation, capacities {0,1}
+\* C17 design spec, thorough tier: 2 keys x 3 threads, every operation (a nil constructor result is reached through the exhausted value ids), capacities {0,1}
 SPECIFICATION Spec
 CONSTANTS
   Keys = {k1, k2}
@@ -8,7 +8,7 @@ CONSTANTS
   Cap0 = 1
   MaxVals = 2
   MaxDels = 1
-  GetModes = {"set", "only", "nil"}
+  GetModes = {"set", "only"}
   Ops = {"delete", "evict", "evictall", "setcap", "close", "closeforce"}
   RecheckRef = TRUE
   AtomicFin = FALSE
